@@ -1835,6 +1835,8 @@ func replay(path string) {
 		sectionLightFill()
 	case "bucket":
 		sectionBucket()
+	case "heldwide":
+		sectionHeldWide()
 	case "hull":
 		sectionHull()
 	default:
@@ -2587,6 +2589,134 @@ func bucketCase(sec *vh.Section, stmt string, empty bool) {
 }
 
 // ---------------------------------------------------------------------------------------------
+// heldwide: partitions held by server-cached cursors, a refused 50-partition SELECT in between, then a TRUNCATE that empties them
+
+func sectionHeldWide() {
+	sec := res.Section("heldwide", "spec-search",
+		"50 partitions of two events each; two server-held cursors (WaitTimeout > 0, page 1 of limit 1) over 25 of them each, so every partition is held by a cached reader; a SELECT over all 50 is refused (the limit of partitions per query is 50) - a refused query must give back exactly what it acquired; then TRUNCATE {all} MAXSIZE 1 removes every chunk: a partition is dropped only when nobody uses it, so all 50 must still exist under the same source id (emptied, reported with deleted = NO); IMPL vs the holders model (Model/TruncateHolders.lean): writer, cursor holds, balanced refused query, TRUNCATE holds, removes, deleteJournal refuses. Afterwards one event is written to every partition and read back uncached; page 2 of the cursors is recorded (F26 class), not judged")
+	defer res.Done(sec)
+	dir := lrsrv.NewDir()
+	defer os.RemoveAll(dir)
+	srv, err := lrsrv.Start(dir, lrsrv.Opts{MaxChunkSize: 4000})
+	if err != nil {
+		res.Note("heldwide: %v", err)
+		return
+	}
+	defer srv.Stop()
+	ctx := context.Background()
+	const n = 50
+	tagsOf := func(i int) string {
+		k := "a"
+		if i >= n/2 {
+			k = "b"
+		}
+		return fmt.Sprintf("g=h,k=%s,p=%d", k, i+1)
+	}
+	for i := 0; i < n; i++ {
+		var wr api.WriteResult
+		evs := []*api.LogEvent{{Timestamp: int64(10 + i), Message: fmt.Sprintf("%04d_", 2*i+1)}, {Timestamp: int64(11 + i), Message: fmt.Sprintf("%04d_", 2*i+2)}}
+		if err := srv.Client.Write(ctx, tagsOf(i), "", evs, &wr); err != nil || wr.Err != nil {
+			res.Note("heldwide: write failed: %v %v", err, wr.Err)
+			return
+		}
+	}
+	srv.FlushWait()
+	srcs := make([]string, n)
+	for i := 0; i < n; i++ {
+		settle(srv, tagsOf(i), 2)
+		if src, _, err := srv.TIndex.GetJournal(tagsOf(i)); err == nil {
+			srcs[i] = src
+			srv.TIndex.Release(src)
+		}
+	}
+	// the two cached readers
+	var next []*api.QueryRequest
+	for _, k := range []string{"a", "b"} {
+		q := &api.QueryRequest{Query: "select from {g=h,k=" + k + "}", Limit: 1, WaitTimeout: 5}
+		qr := &api.QueryResult{}
+		if err := srv.Client.Query(ctx, q, qr); err != nil || qr.Err != nil || len(qr.Events) != 1 {
+			res.Note("heldwide: page 1 of the cached reader over k=%s failed: %v %v (%d events)", k, err, qr.Err, len(qr.Events))
+			return
+		}
+		nq := qr.NextQueryRequest
+		next = append(next, &nq)
+	}
+	// the refused wide query (uncached)
+	wide := &api.QueryResult{}
+	werr := srv.Client.Query(ctx, &api.QueryRequest{Query: "select from {g=h}", Limit: 1}, wide)
+	refused := werr != nil || wide.Err != nil
+	q := "truncate {g=h} maxsize 1"
+	var out string
+	var xerr error
+	pan := vh.Recover(func() { out, xerr = srv.Exec(q) })
+	time.Sleep(20 * time.Millisecond)
+	rep, _, _ := parseReport(out)
+	res.Eval(sec, q)
+	res.Dist(sec, fmt.Sprintf("wide select refused=%v", refused))
+	in := map[string]interface{}{"partitions": "g=h,k=a,p=1..25 and g=h,k=b,p=26..50, two events each", "held_by": []string{"select from {g=h,k=a} limit 1 (WaitTimeout 5, cursor kept by the server)", "select from {g=h,k=b} limit 1 (WaitTimeout 5)"},
+		"then": []string{"select from {g=h} limit 1  (50 partitions: refused)", q}, "wide_select": fmt.Sprint(werr, " ", wide.Err)}
+	var dropped []string
+	deletedYes := 0
+	for i := 0; i < n; i++ {
+		src, _, err := srv.TIndex.GetJournal(tagsOf(i))
+		if err != nil {
+			dropped = append(dropped, tagsOf(i))
+			continue
+		}
+		srv.TIndex.Release(src)
+		if src != srcs[i] {
+			dropped = append(dropped, tagsOf(i)+" (re-created as "+src+")")
+		}
+	}
+	for _, r := range rep {
+		if r.Deleted {
+			deletedYes++
+		}
+	}
+	// MODEL: one partition among holders — writer 1, cached cursor 2, the refused query 3 acquires and gives back, TRUNCATE 4
+	mo, raw := holdersOutcome("goc,1,7,1 w,1,0,38 fl,0 rel,1,0 gt,2,0,1 gt,3,0,1 rel,3,0 gt,4,0,1 rm,4,0,38,0 djl,4,0 djc,4 djd,4 dju,4 rel,4,0")
+	io := "kept:0"
+	if len(dropped) > 0 {
+		io = "dropped"
+	}
+	if mo != io {
+		res.Mismatch(vh.Mismatch{Section: "heldwide", Function: "deleteJournal among holders (Model/TruncateHolders.lean): a partition held by a cached cursor, after a refused wide query", Input: in, Impl: io + " " + strings.Join(dropped, "; "), Model: mo + " <- " + raw})
+	}
+	if pan != "" || xerr != nil || len(dropped) > 0 || deletedYes > 0 {
+		res.SpecFail(vh.SpecFailure{Section: "heldwide", Kind: "dropped-in-use", Input: in,
+			Impl: fmt.Sprintf("dropped=%v report lines with deleted=YES: %d err=%v panic=%q", dropped, deletedYes, xerr, pan), Spec: "all 50 partitions exist under their source ids, no report line says deleted",
+			Model: mo, ImplEqModel: mo == io,
+			What: "a partition that a server-held cursor still uses was dropped by TRUNCATE after a refused 50-partition SELECT (the refused query gave a partition back once too often, so it looked unused)"})
+		return
+	}
+	// the partitions are usable: one more event each, read back uncached
+	bad := 0
+	for i := 0; i < n; i++ {
+		var wr api.WriteResult
+		srv.Client.Write(ctx, tagsOf(i), "", []*api.LogEvent{{Timestamp: int64(1000 + i), Message: fmt.Sprintf("%04d_", 500+i)}}, &wr)
+	}
+	srv.FlushWait()
+	for i := 0; i < n; i++ {
+		settle(srv, tagsOf(i), 1)
+		if got, _ := readSeqs(fullRead(srv, tagsOf(i))); fmt.Sprint(got) != fmt.Sprint([]int{500 + i}) {
+			bad++
+			in["read_back"] = fmt.Sprintf("%s: %v", tagsOf(i), got)
+		}
+	}
+	if bad > 0 {
+		res.SpecFail(vh.SpecFailure{Section: "heldwide", Kind: "held-partition-unusable", Input: in, Impl: fmt.Sprintf("%d partitions do not return the event written after the TRUNCATE", bad), Spec: "every partition returns exactly its new event",
+			What: "a partition emptied (not dropped) by TRUNCATE while a cursor holds it does not serve an event written afterwards"})
+	}
+	for i, rq := range next {
+		qr := &api.QueryResult{}
+		rq.Limit = 3
+		rq.WaitTimeout = 0
+		err := srv.Client.Query(ctx, rq, qr)
+		res.Dist(sec, fmt.Sprintf("page 2 of cached reader %d: %d events err=%v", i+1, len(qr.Events), err != nil || qr.Err != nil))
+	}
+}
+
+// ---------------------------------------------------------------------------------------------
 // unflushed: a TRUNCATE right after an acknowledged write, inside the flush period
 
 func sectionUnflushed() {
@@ -2865,5 +2995,6 @@ func main() {
 	sectionUnflushed()
 	sectionLightFill()
 	sectionBucket()
+	sectionHeldWide()
 	res.Write(args.Out)
 }
